@@ -59,7 +59,10 @@ def space(size: int, pool_n: int):
     import proof_generation.proofs.kore as K
     odd += [apply_(f, a), apply_(P.App(f, a), b), apply_(apply_(f, a), b), apply_(apply_(apply_(f, a), b), P.MetaVar(0)), idn(P.App(P.App(f, a), b)),
             idn(apply_(P.App(f, a), b)), apply_(idn(f), a), idn(K.nary_app(f, 2)(a, b)), apply_(K.nary_app(f, 1)(a), b), apply_(P.MetaVar(0), a),
-            apply_(P.neg(a), b)]
+            apply_(P.neg(a), b),
+            # notations whose whole expansion is a bare variable / symbol (number 0 included)
+            idn(P.EVar(0)), idn(P.EVar(1)), idn(P.SVar(0)), idn(P.Symbol('s0')), idn(idn(P.EVar(0))),
+            P.Instantiate(P.MetaVar(0), frozendict({0: P.EVar(0)})), P.Exists(0, idn(P.EVar(0))), P.Mu(0, idn(P.SVar(0)))]
     # definitions headed by a pending substitution: the head of the expansion comes from the ARGUMENT
     sub1 = P.Notation('sub1', 2, P.ESubst(P.MetaVar(0), P.EVar(1), P.MetaVar(1)), '{0}[{1}/x1]')
     ssub1 = P.Notation('ssub1', 2, P.SSubst(P.MetaVar(0), P.SVar(1), P.MetaVar(1)), '{0}[{1}/X1]')
